@@ -1,6 +1,6 @@
 """C07 — the cache never returns invalidated, expired or superseded data (structural clauses)."""
 from vlib import build, model, q
-from vlib.build import AnalysisBroken, REPO
+from vlib.build import AnalysisBroken, REPO, VERIF
 from rules.C05 import load, REL_NOT_EXPIRED, SWAP
 
 MC = 'cppcms::impl::mem_cache'
@@ -287,11 +287,13 @@ def run(ctx):
     bf = [i for i in fe.calls() if fe.bcallee(i) == 'cppcms::impl::base_cache::fetch']
     ctx.require(len(bf) == 1, 'C07.R6: cache_interface::fetch does not call base_cache::fetch exactly once')
     a = fe.args(bf[0])
-    newtrig = [r for r in fe.subtree_refs(a[2]) if r.startswith('v:')]
+    # the local trigger set handed to the backend (possibly through a pointer local: `p = notriggers ? 0 : &new_trig`)
+    newtrig = [r for r in q.deep_refs(fe, a[2]) if r.startswith('v:') and 'std::set' in (next((fe.types[d['t']] for i_ in fe.all_nodes() if fe.N(i_)['k'] == 'DeclStmt' for d in fe.N(i_)['decls'] if d['ref'] == r), '') or '') and
+               '*' not in (next((fe.types[d['t']] for i_ in fe.all_nodes() if fe.N(i_)['k'] == 'DeclStmt' for d in fe.N(i_)['decls'] if d['ref'] == r), '') or '')]
     ctx.check(len(newtrig) == 1, R6, 'fetch:trigger-out-param', 'no local trigger set handed to the backend fetch', fe.loc(bf[0]))
     if newtrig:
         nt = newtrig[0]
-        lp = [L for L in q.loops(fe) if fe.N(L)['k'] == 'ForStmt' and nt in fe.subtree_refs(fe.N(L)['init']) and nt in fe.subtree_refs(fe.N(L)['cond'])]
+        lp = [L for L in q.loops(fe) if fe.N(L)['k'] in ('ForStmt', 'WhileStmt', 'CXXForRangeStmt') and nt in fe.subtree_refs(L)]
         ok = False
         for L in lp:
             b = fe.N(L)['body']
@@ -347,6 +349,7 @@ def run(ctx):
     ctx.check(bool(ctor) and any(f.bcallee(i) == CI + 'add_triggers_recorder' for f in ctor for i in f.calls()), R6, 'triggers_recorder:registers', 'recorder never registered', ctor[0].where if ctor else None)
 
     # ---------------- R7  key equality used by the primary map and the trigger index
+    R8 = ctx.rule('C07.R8', 'the intrusive doubly linked list under the hash index is mirror symmetric: erase is its own image under next<->prev / begin<->end, push_back is the image of push_front, insert_before of insert_after (a one-sided slip in the unlink code detaches live entries)')
     R7 = ctx.rule('C07.R7', 'key equality functor compares the lengths and the whole content (two different keys never alias)')
     from rules.C08 import dnf
     eqs = [f for f in P.fns.values() if f.brecord == 'cppcms::impl::string_equal' and f.short == 'operator()']
@@ -363,7 +366,10 @@ def run(ctx):
                     if n['k'] == 'BinaryOperator' and n.get('op') == '==' and pol:
                         calls = [q.short_of(f.callee(j)) for j in f.calls(leaf)]
                         if calls.count('size') == 2 and len(calls) == 2:
-                            size_eq = True
+                            # the two lengths are those of the two operands (not one of them twice)
+                            objs = [f.ref_of(f.obj(j)) for j in f.calls(leaf)]
+                            if None not in objs and len(set(objs)) == 2 and set(objs) == set(p_['ref'] for p_ in f.params[:2]):
+                                size_eq = True
                         mc = [j for j in f.calls(leaf) if f.callee(j) in ('memcmp', 'strncmp')]
                         if mc and f.const_value(n['ch'][1]) == 0:
                             a = f.args(mc[0])
@@ -373,7 +379,40 @@ def run(ctx):
                         size_eq = full_cmp = True       # std::string operator==
                 ok = ok and size_eq and full_cmp
         ctx.check(ok, R7, 'string_equal#%d:lengths-and-content' % k, 'keys compare equal without equal length and full-content comparison (prefix aliasing)', f.where)
+
+    # ---------------- R8 mirror symmetry of the intrusive list
+    import collections as _c
+    MIR = {'next': 'prev', 'prev': 'next', 'begin': 'end', 'end': 'begin', 'push_back': 'push_front', 'push_front': 'push_back',
+           'insert_after': 'insert_before', 'insert_before': 'insert_after', 'after_me': 'before_me', 'before_me': 'after_me'}
+    il = {}
+    PW = model.Program(build.extract([VERIF + '/witness/c07_list.cpp'], include_re='^/repo/private/hash_map\\.h'))
+    ctx.units.append('witness/c07_list.cpp')
+    for f in PW.fns.values():
+        if (f.brecord or '').endswith('details::intrusive_list') and f.entry is not None:
+            il.setdefault(f.short, f)
+    ctx.require('erase' in il and 'push_back' in il and 'push_front' in il, 'C07.R8: intrusive_list::erase / push_back / push_front not instantiated')
+
+    def bag(f, swap=None):
+        out = []
+        for st_ in q.body_statements(f):
+            j = f.strip(st_)
+            tg = []
+            while f.N(j)['k'] == 'BinaryOperator' and f.N(j).get('op') == '=':
+                tg.append(f.N(j)['ch'][0])
+                j = f.strip(f.N(j)['ch'][1])
+            if len(tg) >= 2:
+                # a = b = v  is  a = v; b = v  (the mirror image lists the targets in the other order)
+                out += ['(assign %s %s)' % (q.canon(f, t_, swap), q.canon(f, j, swap)) for t_ in tg]
+            else:
+                out.append(q.canon(f, st_, swap))
+        return _c.Counter(out)
+    for a_, b_ in (('erase', 'erase'), ('push_back', 'push_front'), ('insert_after', 'insert_before')):
+        if a_ in il and b_ in il:
+            lhs, rhs = bag(il[a_], MIR), bag(il[b_])
+            diff = sorted((lhs - rhs).keys()) + sorted((rhs - lhs).keys())
+            ctx.check(not diff, R8, 'intrusive_list:%s-mirrors-%s' % (a_, b_), 'not mirror images of each other: %s' % [d_[:120] for d_ in diff[:2]], il[a_].where)
     ctx.floor(R7, 2)
+    ctx.floor(R8, 2)
 
     ctx.floor(R1, 2 * 10)
     ctx.floor(R2, 2 * 8)
